@@ -15,7 +15,10 @@ LEAN_MODULE = 'Proofs.C07'
 THEOREMS = ['Fsic.C07.' + n for n in [
     'fortran_numbering', 'fortran_numbers_distinct', 'fortran_index_rewrite', 'fortran_index_rewrite_cell',
     'kind_safe_agree', 'kind_safe_assign_agree', 'full_agree_false_at_half', 'full_agree_false_at_tenth',
-    'fortran_loop_eq_python_loop', 'fortran_solve_eq_fold', 'error_codes_consistent']]
+    'evaluate_agree', 'fortran_loop_eq_python_loop', 'fortran_solveT_eq_python_partial',
+    'fortran_solveT_false_at_shifted_check', 'fortran_solveT_false_at_max_iter_zero',
+    'fortran_solveT_false_at_infeasible_period', 'fortran_check_rows_shifted', 'fortran_row_zero_alias',
+    'fortran_solve_eq_fold', 'error_codes_consistent']]
 RULE = ('programs from an own grammar (1-6 equations, shared variables, parameters {a}, errors <e>, lags/leads up to 3, '
         'integer and decimal literals, + - * / ** unary minus parentheses exp log max min abs, long sums over dozens of '
         'variables that need continuation lines) plus a fixed list of designed programs (convergence exactly at tol, '
